@@ -154,6 +154,16 @@ func (o Out) single() (v any, raised, ok bool) {
 	return nil, false, false
 }
 
+// operand is single() for a value that is going to be looked at: the
+// unspecified return of set/setall gives no single outcome.
+func (o Out) operand() (v any, raised, ok bool) {
+	v, raised, ok = o.single()
+	if _, u := v.(unspecified); u {
+		return nil, false, false
+	}
+	return
+}
+
 // M evaluates plans against Root (which it mutates for set/del).
 type M struct {
 	Fns  map[string]bool // every function name the implementation knows
@@ -921,7 +931,7 @@ func not(m *M, args []any, e env) Out {
 	if len(args) != 1 {
 		return raise()
 	}
-	v, raised, ok := m.eval(args[0], e).single()
+	v, raised, ok := m.eval(args[0], e).operand()
 	if !ok {
 		return unknown()
 	}
@@ -965,7 +975,7 @@ func cond(m *M, args []any, e env) Out {
 			return raise()
 		}
 		l := a.([]any)
-		v, raised, ok := m.eval(l[0], e).single()
+		v, raised, ok := m.eval(l[0], e).operand()
 		if !ok {
 			return unknown()
 		}
@@ -1006,7 +1016,7 @@ func (m *M) pathArg(a any, e env, callOK bool) (p Path, o *Out) {
 			u := unknown()
 			return p, &u
 		}
-		v, raised, ok := m.eval(a, e).single()
+		v, raised, ok := m.eval(a, e).operand()
 		switch {
 		case !ok:
 			u := unknown()
